@@ -3,13 +3,38 @@ the number of sweeps is deliberately not compared: a second run legitimately nee
 import random
 
 import streams
-from checks._folcommon import tabs_of
-from common import sub_seed, size
+from checks._folcommon import tabs_of, worlds_of
+from common import sub_seed, size, parse_q
+
+
+def reset_oracle(rec):
+    """right after reset_bounds() nothing an earlier pass proved may be left: every stored row reads its asserted fact, or
+    its formula's world default if it was never asserted"""
+    import fol
+    w = worlds_of(rec)
+    asserted = {}
+    for k, line in enumerate(rec["lines"]):
+        if line.startswith("fact "):
+            t = line.split()
+            asserted[(int(t[1]), t[2])] = (parse_q(t[3]), parse_q(t[4]))
+        elif line.startswith("fresetb") and k + 1 < len(rec["lines"]) and rec["lines"][k + 1].startswith("ftab "):
+            tabs = fol.parse_tab(rec["impl"][k + 1])
+            for i, rows in tabs.items():
+                for g, b in rows.items():
+                    want = asserted.get((i, g), w.get(i))
+                    if want is not None and b != want:
+                        return {"problem": "a bound proved by an earlier pass survived reset_bounds()", "formula": i, "grounding": g,
+                                "after_reset": list(map(str, b)), "data_or_world_default": list(map(str, want)),
+                                "contradictory_data": False, "quantified": False, "reset_trace": True}
+    return None
 
 
 def oracle(rec):
     if rec.get("safe_upto", len(rec["lines"])) < len(rec["lines"]):
         return None
+    bad = reset_oracle(rec)
+    if bad:
+        return bad
     ts = [t for t in tabs_of(rec) if t[1].startswith("finfer")]
     if len(ts) < 2:
         return None
